@@ -518,7 +518,13 @@ func (g *G) genMap(d int) string {
 	return "{a: " + g.genInt(d-1) + ", b: " + g.genInt(d-1) + "}"
 }
 
+var floatLits = []string{"0.0", "-0.0", "1.5", "-2.25", "1e3", "0.1", "5e-324", "1.7976931348623157e308"}
+
 func (g *G) genAny(d int) string {
+	if g.chance(0.12) {
+		g.tag("float-literal")
+		return floatLits[g.pick(len(floatLits))]
+	}
 	switch g.pick(6) {
 	case 0:
 		return g.genInt(d)
